@@ -389,13 +389,21 @@ def domainWidth (x : Input) : Int :=
 def gridOrdered (x : Input) : Bool :=
   allZ (fun r => allZ (fun c => decide (x.dminG r c ≤ x.dmaxG r c)) 0 x.L.cols) 0 x.L.rows
 
-def wf (x : Input) : Bool :=
-  let gmin := gridMin x.dminG x.L.rows x.L.cols
-  let gmax := gridMax x.dmaxG x.L.rows x.L.cols
+/-- hypotheses of the theorems: odd window, positive subpix, images of the same size at least as large as the
+    window, per-pixel `min ≤ max`, census window 3 or 5.  Nothing about where the interval lies. -/
+def wfShape (x : Input) : Bool :=
   decide (x.w % 2 = 1) && decide (0 < x.sp) && decide (x.w ≤ x.L.rows) && decide (x.w ≤ x.L.cols) &&
   decide (x.R.rows = x.L.rows) && decide (x.R.cols = x.L.cols) && gridOrdered x &&
-  decide (-(domainWidth x) ≤ gmin) && decide (gmax ≤ domainWidth x) &&
   (x.meas != .census || decide (x.w = 3 ∨ x.w = 5))
+
+/-- domain of the *correspondence* (not of the theorems): every sampled disparity keeps the column slices of the
+    code well formed; outside it numpy raises (finding C02-F1) and the model is not compared -/
+def inDomain (x : Input) : Bool :=
+  let gmin := gridMin x.dminG x.L.rows x.L.cols
+  let gmax := gridMax x.dmaxG x.L.rows x.L.cols
+  decide (-(domainWidth x) ≤ gmin) && decide (gmax ≤ domainWidth x)
+
+def wf (x : Input) : Bool := wfShape x && inDomain x
 
 /-! ## Specification (from the property statement) -/
 
